@@ -683,6 +683,7 @@ class Lib:
             body = ex.truth(ex.ev(st, lam.body))
             pats = None
             if trig is not None:
+                ex._in_trigger = getattr(ex, "_in_trigger", 0) + 1
                 tl = trig.body if isinstance(trig, ast.Lambda) else trig
                 groups = tl.elts if isinstance(tl, ast.List) else [tl]
                 pats = []
@@ -690,6 +691,7 @@ class Lib:
                     terms = g.elts if isinstance(g, ast.Tuple) else [g]
                     zs = [ex.ev(st, t_).z for t_ in terms]
                     pats.append(z3.MultiPattern(*zs) if len(zs) > 1 else zs[0])
+                ex._in_trigger -= 1
         finally:
             ex.pop_binder(st)
             st.env = saved
@@ -1009,6 +1011,18 @@ class Lib:
         """spec: same(a, b) - identity of the two values as terms (for sequences: also beyond their length)"""
         a, b = ex.ev(st, node.args[0]), ex.ev(st, node.args[1])
         return SV(BOOL, a.z == b.z)
+
+    def b_marked(self, ex, st, node):
+        """spec: marked('name', a, b, ...) - an uninterpreted boolean MARKER term.  A quantified fact of the form
+        forall a, b: range(a, b) -> (fact(a, b) and marked('n', a, b)) with trigger marked('n', a, b) never fires on
+        its own (no quadratic instantiation); it is used by first asserting marked('n', x, y) for the wanted
+        instance, which the fact itself proves.  Constraining the marker to True is a definitional extension."""
+        if not getattr(ex, "_in_trigger", 0):
+            raise self.E.Unsupported("marked(...) may only occur in a trigger")
+        name = node.args[0].value
+        args = [ex.to_int(ex.ev(st, a)) for a in node.args[1:]]
+        f = ex.uf("marker_" + name, *([z3.IntSort()] * len(args) + [z3.BoolSort()]))
+        return SV(BOOL, f(*args))
 
     def b_trig(self, ex, st, node):
         return ex.ev(st, node.args[0])
